@@ -429,6 +429,9 @@ def run(ctx) -> None:
     r2_owner(ctx)
     r3_bundled(ctx)
     r4_helpers(ctx)
+    from .. import lints
+    lints.arm(ctx)
+
 
 
 # ---------------------------------------------------------------------------------------
